@@ -30,6 +30,8 @@ def run(ctx):
         ctx.violation("build", "extracted tools do not build: " + err[:200], {"broken": "extraction"}, found_input=False)
         return
     quick = ctx.tier == "quick"
+    from props import c02 as _c02
+    _c02.proofs(ctx, "C20.v", deps=("Machine/CallEquiv.vo",))   # property theorems: build + Print Assumptions audit
     rng = ctx.rng
     progs = [(n, s, f) for n, s, f in nm.corpus() if quick is False or n not in ("gtfs-realtime", "ttc_rdf")]
     for i in range(30 if quick else 400):
